@@ -750,6 +750,13 @@ impl ZmtpEngine {
       }
 
       let is_more = msg.is_more();
+      if self.partial_batch.len() >= FrameBatch::MAX_FRAMES {
+        self.partial_batch = FrameBatch::new();
+        self.fail(out, ZmqError::ProtocolViolation(
+          "Peer sent a multipart message with more frames than supported".into(),
+        ));
+        return;
+      }
       self.partial_batch.push(msg);
       if !is_more {
         let batch = std::mem::replace(&mut self.partial_batch, FrameBatch::new());
